@@ -111,6 +111,13 @@ def lincombBoxed (terms : List (List Nat × List Nat)) (ms : List Nat) (k lz : N
   if terms.length ≤ 1 <<< lz then windowBoxed terms ms k
   else chunkLoopBoxed ms k (1 <<< lz) terms.length terms (uzero ms.length)
 
+/-- `ConstMontyForm::lincomb_vartime` / `MontyForm::lincomb_vartime` / `BoxedMontyForm::lincomb_vartime`
+    on a non-empty term list (the runtime / boxed forms assert non-emptiness). -/
+def opLincomb (s : State) (terms : List (List Nat × List Nat)) : List Nat :=
+  match s.rep with
+  | .boxed => lincombBoxed terms s.params.modulus s.params.modNegInv s.params.modLeadingZeros
+  | _ => lincombFixed terms s.params.modulus s.params.modNegInv s.params.modLeadingZeros
+
 /-! ## L0 -/
 
 /-- `Σ aᵢ·bᵢ mod m` on residues. -/
